@@ -9,6 +9,8 @@ import (
 	"strconv"
 	"sync"
 	"time"
+
+	"github.com/jsightapi/jsight-schema-core/simrt"
 )
 
 // Golden is the reference for one project: the observations of its canonical
@@ -54,7 +56,15 @@ func goldenMain() {
 	if n, _ := strconv.Atoi(os.Getenv("JSIM_PERTURB")); n > 0 {
 		perturbHeap(n)
 	}
-	obs := goldenScript(&p)
+	// The script runs as the one task of a simulated run on the all-zero tape (the
+	// canonical configuration: sorted map order, LIFO pools, ascending addresses,
+	// canonical clock tick / CPU count / random seed, and - should the library start
+	// goroutines of its own - the canonical schedule), so that the reference is a
+	// function of the input even for code whose real execution would not be.
+	var obs map[string]string
+	simrt.Begin(simrt.Config{Tape: simrt.NewReplayTape([simrt.NKinds][]uint32{}), StepCap: 1 << 30,
+		OnFatal: func(v int, d string) { fatalExit("golden: the canonical execution does not end: " + d) }})
+	simrt.Run([]func(){func() { obs = goldenScript(&p) }})
 	_ = json.NewEncoder(os.Stdout).Encode(obs)
 }
 
